@@ -17,6 +17,7 @@ package authn
 import (
 	hcm "github.com/envoyproxy/go-control-plane/envoy/extensions/filters/network/http_connection_manager/v3"
 
+	"istio.io/istio/pilot/pkg/features"
 	"istio.io/istio/pilot/pkg/model"
 	"istio.io/istio/pilot/pkg/networking"
 	"istio.io/istio/pilot/pkg/security/authn"
@@ -122,7 +123,12 @@ func needPerPortPassthroughFilterChain(port uint32, node *model.Proxy) bool {
 				return false
 			}
 		}
-		return true
+		if !features.EnableSidecarServiceInboundListenerMerge {
+			return true
+		}
+		// With inbound listener merge the service ports that the Sidecar does not declare get their own
+		// filter chains as well (getFilterChainsByServicePort): fall through to the service check, or the
+		// port would get a second, per-port passthrough set of chains with the same filter chain matches.
 	}
 
 	// If there is no Sidecar, check if the port is appearing in any service.
